@@ -77,56 +77,14 @@ func c14R8(c *Ctx) {
 				}
 				newList := as.Rhs[i]
 				sameList := func(e ast.Expr) bool { return exprStr(ast.Unparen(e)) == exprStr(ast.Unparen(newList)) }
-				var bad []string
-				// (1) length equality dominates
-				lenOK := false
-				lenEdges := map[core.EdgeRef]bool{}
-				for _, m := range g.Nodes {
-					for k, e := range m.Succs {
-						if e.Cond == nil || e.Tag != nil || e.Branch == 0 {
-							continue
-						}
-						b, ok := ast.Unparen(e.Cond).(*ast.BinaryExpr)
-						if !ok || (b.Op != token.EQL && b.Op != token.NEQ) || (e.Branch == 1) != (b.Op == token.EQL) {
-							continue
-						}
-						lenOf := func(x ast.Expr) ast.Expr {
-							call, ok := ast.Unparen(x).(*ast.CallExpr)
-							if !ok || len(call.Args) != 1 {
-								return nil
-							}
-							if id, ok := call.Fun.(*ast.Ident); !ok || id.Name != "len" || info.Uses[id] != types.Universe.Lookup("len") {
-								return nil
-							}
-							return call.Args[0]
-						}
-						a, bb := lenOf(b.X), lenOf(b.Y)
-						if a == nil || bb == nil {
-							continue
-						}
-						if sameList(a) && isPCCerts(info, bb) || sameList(bb) && isPCCerts(info, a) {
-							lenEdges[core.EdgeRef{From: m.ID, Idx: k}] = true
-						}
-					}
-				}
-				if len(lenEdges) > 0 && g.DominatedByEdges(n.ID, lenEdges) {
-					lenOK = true
-				}
-				if !lenOK {
-					bad = append(bad, "no dominating test that the new list has the old list's length")
-				}
-				// (2) position-wise Equals loop dominates
-				posOK := false
-				for _, l := range c06RangeLoops(g) {
-					if !sameList(l.Range.X) || l.KeyVar == nil || l.ValueVar == nil {
-						continue
-					}
-					if !g.Dominated(n.ID, map[int]bool{l.Head: true}) || l.Body[n.ID] {
-						continue
-					}
-					// edges of the body on which old[i].Equals(v) is false
-					for m := range l.Body {
-						for _, e := range g.Nodes[m].Succs {
+				isOld := func(e ast.Expr) bool { return isPCCerts(info, e) }
+				mayFailRet := func(ret *ast.ReturnStmt) bool { mf, _ := g.ReturnMayFail(ret, nil); return mf }
+				lenOK, posOK := c14PairwiseGuard(g, n.ID, isOld, sameList, mayFailRet, equals.Obj)
+				if !lenOK || !posOK {
+					// a boolean helper `eq(old, new)` whose every accepting return is guarded the same way
+					edges := map[core.EdgeRef]bool{}
+					for _, m := range g.Nodes {
+						for k, e := range m.Succs {
 							if e.Cond == nil || e.Tag != nil || e.Branch == 0 {
 								continue
 							}
@@ -139,53 +97,38 @@ func c14R8(c *Ctx) {
 								cond, pol = ast.Unparen(u.X), !pol
 							}
 							call, ok := cond.(*ast.CallExpr)
-							if !ok || pol || !core.IsCallTo(info, call, equals.Obj) || len(call.Args) != 1 {
+							if !ok || !pol || len(call.Args) != 2 {
 								continue
 							}
-							sel, _ := ast.Unparen(call.Fun).(*ast.SelectorExpr)
-							if sel == nil {
+							var oi, ni int
+							switch {
+							case isOld(call.Args[0]) && sameList(call.Args[1]):
+								oi, ni = 0, 1
+							case isOld(call.Args[1]) && sameList(call.Args[0]):
+								oi, ni = 1, 0
+							default:
 								continue
 							}
-							isOldAtI := func(x ast.Expr) bool {
-								ix, ok := ast.Unparen(x).(*ast.IndexExpr)
-								return ok && isPCCerts(info, ix.X) && core.VarOf(info, ix.Index) == l.KeyVar
-							}
-							isNewElem := func(x ast.Expr) bool {
-								if core.VarOf(info, x) == l.ValueVar {
-									return true
-								}
-								ix, ok := ast.Unparen(x).(*ast.IndexExpr)
-								return ok && sameList(ix.X) && core.VarOf(info, ix.Index) == l.KeyVar
-							}
-							if !(isOldAtI(sel.X) && isNewElem(call.Args[0]) || isNewElem(sel.X) && isOldAtI(call.Args[0])) {
+							fn := core.Callee(info, call)
+							if fn == nil {
 								continue
 							}
-							// from the "not equal" edge the write must be unreachable and every return must fail
-							reach := g.Reach([]int{e.To}, nil, nil)
-							ok2 := !reach[n.ID] && !reach[l.Head]
-							for x := range reach {
-								if ret, isRet := g.Nodes[x].Ast.(*ast.ReturnStmt); isRet {
-									if mf, _ := g.ReturnMayFail(ret, nil); !mf {
-										ok2 = false
-									}
-								}
+							h := c.P.DeclOf(fn)
+							if h == nil || h.Decl == nil || h.Decl.Body == nil || h.Decl.Recv != nil {
+								continue
 							}
-							// and every iteration passes the comparison: the back edge is not reachable from the body entry without it
-							if ok2 {
-								cmpNode := m
-								r2 := g.Reach([]int{l.BodyEntry}, func(x int) bool { return x == cmpNode || !l.Body[x] }, nil)
-								through := true
-								for _, b := range l.backNodes() {
-									if r2[b] && b != cmpNode {
-										through = false
-									}
-								}
-								if through {
-									posOK = true
-								}
+							if c14PairwisePredicate(c, h, oi, ni, equals.Obj) {
+								edges[core.EdgeRef{From: m.ID, Idx: k}] = true
 							}
 						}
 					}
+					if len(edges) > 0 && g.DominatedByEdges(n.ID, edges) {
+						lenOK, posOK = true, true
+					}
+				}
+				var bad []string
+				if !lenOK {
+					bad = append(bad, "no dominating test that the new list has the old list's length")
 				}
 				if !posOK {
 					bad = append(bad, "no dominating loop `for i, v := range <new list>` that fails unless pc.configuration.Certificates[i].Equals(v) for its own index i (a set-membership test accepts a permutation)")
@@ -199,4 +142,147 @@ func c14R8(c *Ctx) {
 	if nWrites == 0 {
 		r.OK(rule, "writes:configuration.Certificates|none-after-construction", "-", "pc.configuration.Certificates is never written after construction")
 	}
+}
+
+// c14PairwiseGuard: is target dominated (lenOK) by an edge establishing len(new) == len(old) and (posOK) by a range loop
+// over the new list every iteration of which leaves through a rejecting return unless old[i].Equals(new[i]) for the
+// loop's own index?
+func c14PairwiseGuard(g *core.Graph, target int, isOld, isNew func(ast.Expr) bool, rejects func(*ast.ReturnStmt) bool, equals *types.Func) (lenOK, posOK bool) {
+	info := g.Info
+	lenEdges := map[core.EdgeRef]bool{}
+	for _, m := range g.Nodes {
+		for k, e := range m.Succs {
+			if e.Cond == nil || e.Tag != nil || e.Branch == 0 {
+				continue
+			}
+			b, ok := ast.Unparen(e.Cond).(*ast.BinaryExpr)
+			if !ok || (b.Op != token.EQL && b.Op != token.NEQ) || (e.Branch == 1) != (b.Op == token.EQL) {
+				continue
+			}
+			lenOf := func(x ast.Expr) ast.Expr {
+				call, ok := ast.Unparen(x).(*ast.CallExpr)
+				if !ok || len(call.Args) != 1 {
+					return nil
+				}
+				if id, ok := call.Fun.(*ast.Ident); !ok || id.Name != "len" || info.Uses[id] != types.Universe.Lookup("len") {
+					return nil
+				}
+				return call.Args[0]
+			}
+			a, bb := lenOf(b.X), lenOf(b.Y)
+			if a == nil || bb == nil {
+				continue
+			}
+			if isNew(a) && isOld(bb) || isNew(bb) && isOld(a) {
+				lenEdges[core.EdgeRef{From: m.ID, Idx: k}] = true
+			}
+		}
+	}
+	lenOK = len(lenEdges) > 0 && g.DominatedByEdges(target, lenEdges)
+	for _, l := range c06RangeLoops(g) {
+		if !(isNew(l.Range.X) || isOld(l.Range.X)) || l.KeyVar == nil {
+			continue
+		}
+		overNew := isNew(l.Range.X)
+		if !g.Dominated(target, map[int]bool{l.Head: true}) || l.Body[target] {
+			continue
+		}
+		for m := range l.Body {
+			for _, e := range g.Nodes[m].Succs {
+				if e.Cond == nil || e.Tag != nil || e.Branch == 0 {
+					continue
+				}
+				cond, pol := ast.Unparen(e.Cond), e.Branch == 1
+				for {
+					u, ok := cond.(*ast.UnaryExpr)
+					if !ok || u.Op != token.NOT {
+						break
+					}
+					cond, pol = ast.Unparen(u.X), !pol
+				}
+				call, ok := cond.(*ast.CallExpr)
+				if !ok || pol || !core.IsCallTo(info, call, equals) || len(call.Args) != 1 {
+					continue
+				}
+				sel, _ := ast.Unparen(call.Fun).(*ast.SelectorExpr)
+				if sel == nil {
+					continue
+				}
+				at := func(x ast.Expr, list func(ast.Expr) bool, ranged bool) bool {
+					if ranged && l.ValueVar != nil && core.VarOf(info, x) == l.ValueVar {
+						return true
+					}
+					ix, ok := ast.Unparen(x).(*ast.IndexExpr)
+					return ok && list(ix.X) && core.VarOf(info, ix.Index) == l.KeyVar
+				}
+				isOldAtI := func(x ast.Expr) bool { return at(x, isOld, !overNew) }
+				isNewAtI := func(x ast.Expr) bool { return at(x, isNew, overNew) }
+				if !(isOldAtI(sel.X) && isNewAtI(call.Args[0]) || isNewAtI(sel.X) && isOldAtI(call.Args[0])) {
+					continue
+				}
+				reach := g.Reach([]int{e.To}, nil, nil)
+				ok2 := !reach[target] && !reach[l.Head]
+				for x := range reach {
+					if ret, isRet := g.Nodes[x].Ast.(*ast.ReturnStmt); isRet && !rejects(ret) {
+						ok2 = false
+					}
+				}
+				if ok2 {
+					cmpNode := m
+					r2 := g.Reach([]int{l.BodyEntry}, func(x int) bool { return x == cmpNode || !l.Body[x] }, nil)
+					through := true
+					for _, b := range l.backNodes() {
+						if r2[b] && b != cmpNode {
+							through = false
+						}
+					}
+					if through {
+						posOK = true
+					}
+				}
+			}
+		}
+	}
+	return lenOK, posOK
+}
+
+// c14PairwisePredicate: h(a, b []Certificate) bool returns something other than the constant false only when
+// len(a) == len(b) and a[i].Equals(b[i]) at every position.
+func c14PairwisePredicate(c *Ctx, h *core.FuncInfo, oi, ni int, equals *types.Func) bool {
+	sig := h.Obj.Type().(*types.Signature)
+	if sig.Params().Len() != 2 || sig.Results().Len() != 1 || !types.Identical(sig.Results().At(0).Type(), types.Typ[types.Bool]) {
+		return false
+	}
+	g := c.P.GraphOf(h)
+	info := g.Info
+	po, pn := sig.Params().At(oi), sig.Params().At(ni)
+	isOld := func(e ast.Expr) bool { return core.VarOf(info, e) == po }
+	isNew := func(e ast.Expr) bool { return core.VarOf(info, e) == pn }
+	for _, lhs := range g.Nodes {
+		for _, t := range core.AssignTargets(lhs.Ast) {
+			if v := core.VarOf(info, t); v == po || v == pn {
+				return false // a parameter is reassigned
+			}
+		}
+	}
+	isFalse := func(ret *ast.ReturnStmt) bool {
+		if len(ret.Results) != 1 {
+			return false
+		}
+		tv, ok := info.Types[ret.Results[0]]
+		return ok && tv.Value != nil && tv.Value.ExactString() == "false"
+	}
+	n := 0
+	for _, rn := range g.Returns() {
+		ret := g.Nodes[rn].Ast.(*ast.ReturnStmt)
+		if isFalse(ret) {
+			continue
+		}
+		n++
+		lenOK, posOK := c14PairwiseGuard(g, rn, isOld, isNew, isFalse, equals)
+		if !lenOK || !posOK {
+			return false
+		}
+	}
+	return n > 0
 }
